@@ -253,8 +253,16 @@ func (x *Exec) contractCall(i *ssa.Call, callee *ssa.Function, cc *Contract, val
 	pre := x.cur.clone()
 	saveOld := x.oldMem
 	x.oldMem = pre
+	// "waive call-requires at <text>": the call is made outside the callee's contract on purpose (its
+	// result is not used on those paths); the postconditions are then assumed only under the preconditions
+	outside := x.waived("call-requires", pos)
+	preT := tTrue
 	for k, r := range cc.Requires {
 		t := x.evalBool(r, env)
+		if outside {
+			preT = mkAnd(preT, t)
+			continue
+		}
 		x.oblige(fmt.Sprintf("call/%s#%d/requires/%d", key, ord, k+1), "call-requires", x.curPC, t, r.Text, pos)
 	}
 	// frame: pointer arguments are assumed modified unless the contract says "assigns nothing"
@@ -298,11 +306,18 @@ func (x *Exec) contractCall(i *ssa.Call, callee *ssa.Function, cc *Contract, val
 	if len(results) == 1 {
 		env.vars["result"] = results[0]
 	}
+	if outside {
+		// the postconditions are available only where the preconditions happen to hold
+		preT = x.vc.define("callpre", preT)
+	}
 	for _, e := range cc.Ensures {
 		t, err := x.tryEvalBool(e, env)
 		if err != nil {
 			x.warn("call %s#%d: ensures %q not usable here: %v", key, ord, e.Text, err)
 			continue
+		}
+		if outside {
+			t = mkImp(preT, t)
 		}
 		x.vc.assume(mkImp(x.curPC, t))
 	}
